@@ -119,6 +119,9 @@ func (fr *Frame) runDefer(d deferred) {
 			if _, isAbort := r.(abortG); isAbort {
 				panic(r)
 			}
+			if _, isCrash := r.(crashSignal); isCrash {
+				panic(r)
+			}
 			fr.panicking = true
 			fr.panicVal = r
 		}
@@ -141,6 +144,9 @@ func (fr *Frame) run() {
 		}
 		if _, isAbort := r.(abortG); isAbort {
 			panic(r)
+		}
+		if _, isCrash := r.(crashSignal); isCrash {
+			panic(r) // process kill: no deferred function runs
 		}
 		if _, isGo := r.(goPanic); !isGo {
 			// interpreter bug / unexpected Go runtime panic: surface as unsupported with context
@@ -529,7 +535,7 @@ func funcPkgPath(fn *ssa.Function) string {
 
 var opaquePrefixes = []string{
 	"go.opentelemetry.io/", "github.com/prometheus/", "go.uber.org/zap", "google.golang.org/grpc",
-	"github.com/drand/drand/v2/common/log", "github.com/grpc-ecosystem/", "google.golang.org/genproto",
+	"github.com/drand/drand/v2/common/log", "github.com/grpc-ecosystem/", "google.golang.org/genproto", "github.com/go-chi/",
 }
 
 func isOpaquePkg(path string) bool {
